@@ -78,9 +78,12 @@ typedef struct bg_list {
    classes partition its entries), hence assumed -- never proved -- after each
    shim operation and at load (A-STL / L2).  */
 #define BG_CNT_AX(c, i)                                                       \
-  ((c).len < BG_CAP && (c).nP + (c).nQ <= (c).len && (c).up <= (c).len &&     \
-   BG_UPPQ(c, i) <= (c).up && (c).len - ((c).nP + (c).nQ) >= (c).up - BG_UPPQ(c, i) && \
-   (G_P != G_Q || (c).nQ == 0))
+  ((c).len < BG_CAP && (c).nP <= (c).len && (c).nQ <= (c).len &&              \
+   (c).up <= (c).len && (G_P != G_Q || (c).nQ == 0))
+/* the relational part, assumed locally where an operation needs it */
+#define BG_CNT_AX_SUM(c, i)                                                   \
+  ((c).nP + (c).nQ <= (c).len && BG_UPPQ(c, i) <= (c).up &&                   \
+   (c).len - ((c).nP + (c).nQ) >= (c).up - BG_UPPQ(c, i))
 #define BG_LIST_WF(l)                                                         \
   (BG_CNT_AX((l).c, (l).idx) && ((l).c.nP == 0 || G_P < (l).bound) &&         \
    ((l).c.nQ == 0 || G_Q < (l).bound) && (l).bound <= ((bg_size)1 << 32))
@@ -120,14 +123,17 @@ typedef struct bg_it {
 #define BG_ROW_CHECK_MUT(l)                                                   \
   __CPROVER_assert((l) != &bg_scratch_row.row ||                              \
                        (bg_scratch_row.valid && bg_scratch_row.owner != 0),   \
-                   "ABSTRACTION mutation of a row that is not checked out")
+                   "ABSTRACTION mutation of a row obtained through const access")
 
+/* ghost: the vector whose operator[] was evaluated last (owner of observed rows) */
+extern struct bg_adj *bg_cur_adj;
 static inline void bg__rest_sub(bg_list *l, bg_size k, bg_size kup, bg_size kq, bg_size kp);
 static inline void bg__rest_add(bg_list *l, bg_bool isup, bg_bool isq, bg_bool isp);
 
 static inline void bg__it_arrive(bg_it *it) {
   if (it->r.len > 0) {
     VertexIndex x = nondet_vertex();
+    BG_ASSUME(BG_CNT_AX_SUM(it->r, it->idx));
     BG_ASSUME((bg_size)x < it->bound);
     BG_ASSUME(!BG_IS_P(x) || it->r.nP > 0);
     BG_ASSUME(!BG_IS_Q(x) || it->r.nQ > 0);
@@ -188,6 +194,7 @@ static inline void bg_list_u__remove(bg_list *l, const VertexIndex *xp) {
     l->c.nQ = 0;
   } else {
     k = nondet_bg_size();
+    BG_ASSUME(BG_CNT_AX_SUM(l->c, l->idx));
     BG_ASSUME(k <= l->c.len - (l->c.nP + l->c.nQ));
     if ((bg_size)x >= l->idx)
       BG_ASSUME(k <= l->c.up - BG_UPPQ(l->c, l->idx));
@@ -326,7 +333,7 @@ static inline bg_it bg_find_u(bg_it first, bg_it last, const VertexIndex *xp) {
   res.r.up = nondet_bg_size();
   BG_ASSUME(res.r.len >= 1 && res.r.len <= first.r.len && res.r.nP <= first.r.nP &&
             res.r.nQ <= first.r.nQ && res.r.up <= first.r.up);
-  BG_ASSUME(BG_CNT_AX(res.r, res.idx));
+  BG_ASSUME(BG_CNT_AX(res.r, res.idx) && BG_CNT_AX_SUM(res.r, res.idx));
   BG_ASSUME(!BG_IS_P(x) || res.r.nP > 0);
   BG_ASSUME(!BG_IS_Q(x) || res.r.nQ > 0);
   return res;
@@ -341,29 +348,42 @@ typedef struct bg_adj {
      formula size); pointers to distinct objects are case-split cheaply. */
   bg_list *rowP, *rowQ;
   /* ghost sums over all rows other than G_P, G_Q */
-  bg_size restLen;      /* sum of len                                         */
-  bg_size restUp;       /* sum of entries >= own row index                    */
-  bg_size restInQ;      /* number of entries equal to G_Q                     */
-  bg_size restInP;      /* number of entries equal to G_P                     */
-  bg_size bound;        /* every entry of every row is < bound                */
+  struct bg_rest {      /* (one assigns target; the row pointers are never assigned) */
+    bg_size total;      /* STORED sum of len over ALL rows (see bg_cnt)       */
+    bg_size totalUp;    /* STORED sum of up over ALL rows                     */
+    bg_size restLen;    /* sum of len                                         */
+    bg_size restUp;     /* sum of entries >= own row index                    */
+    bg_size restInQ;    /* number of entries equal to G_Q                     */
+    bg_size restInP;    /* number of entries equal to G_P                     */
+    bg_size restBound;  /* every entry of every such row is < restBound       */
+  } r;
 } bg_adj;
 
-#define BG_ADJ_TOTAL(a) ((a).rowP->c.len + (a).rowQ->c.len + (a).restLen)
-#define BG_ADJ_TOTALUP(a) ((a).rowP->c.up + (a).rowQ->c.up + (a).restUp)
+#define BG_ADJ_TOTAL(a) ((a).r.total)
+#define BG_ADJ_TOTALUP(a) ((a).r.totalUp)
 /* in-degree of G_Q / G_P as the number of entries equal to it */
 #define BG_ADJ_INQ(a)                                                         \
-  ((G_P == G_Q ? (a).rowP->c.nP : (a).rowP->c.nQ + (a).rowQ->c.nQ) + (a).restInQ)
-#define BG_ADJ_INP(a) ((a).rowP->c.nP + (a).rowQ->c.nP + (a).restInP)
+  ((G_P == G_Q ? (a).rowP->c.nP : (a).rowP->c.nQ + (a).rowQ->c.nQ) + (a).r.restInQ)
+#define BG_ADJ_INP(a) ((a).rowP->c.nP + (a).rowQ->c.nP + (a).r.restInP)
 
+/* rest sums are sums over the same rows: axioms of the abstraction */
+#define BG_REST_AX(a)                                                         \
+  ((a).r.restLen < BG_CAP && (a).r.restUp <= (a).r.restLen &&                 \
+   (a).r.restInQ <= (a).r.restLen && (a).r.restInP <= (a).r.restLen &&        \
+   (a).r.total < BG_CAP && (a).r.restLen <= (a).r.total &&                    \
+   (a).r.totalUp <= (a).r.total && (a).r.restUp <= (a).r.totalUp)
+/* a sum is at least each of its summands */
+#define BG_ADJ_ROWS_AX(a)                                                     \
+  ((a).rowP->c.len <= (a).r.total && (a).rowQ->c.len <= (a).r.total &&        \
+   (a).rowP->c.up <= (a).r.totalUp && (a).rowQ->c.up <= (a).r.totalUp)
 #define BG_ADJ_FRESH(a)                                                       \
   (__CPROVER_is_fresh((a).rowP, sizeof(bg_list)) &&                           \
    __CPROVER_is_fresh((a).rowQ, sizeof(bg_list)))
 #define BG_ADJ_WF(a)                                                          \
   (BG_LIST_WF(*(a).rowP) && BG_LIST_WF(*(a).rowQ) && (a).rowP->idx == G_P &&   \
-   (a).rowQ->idx == G_Q && (a).rowP->bound <= (a).bound &&                    \
-   (a).rowQ->bound <= (a).bound && (a).bound <= ((bg_size)1 << 32) &&         \
-   (a).restLen < BG_CAP && (a).restUp <= (a).restLen &&                       \
-   (a).restInQ <= (a).restLen && (a).restInP <= (a).restLen &&                \
+   (a).rowQ->idx == G_Q && (a).r.restBound <= ((bg_size)1 << 32) &&                 \
+   BG_REST_AX(a) &&                                                           \
+   BG_ADJ_ROWS_AX(a) &&                                                       \
    ((bg_size)G_P < (a).n || (a).rowP->c.len == 0) &&                          \
    ((bg_size)G_Q < (a).n || (a).rowQ->c.len == 0) &&                          \
    (G_P != G_Q || (a).rowQ->c.len == 0))
@@ -377,32 +397,72 @@ static inline void bg_vec_list_u__ctor(bg_adj *a) {
   bg_list_u__ctor(a->rowQ);
   a->rowP->idx = G_P;
   a->rowQ->idx = G_Q;
-  a->restLen = a->restUp = a->restInQ = a->restInP = 0;
-  a->bound = 0;
+  a->r.total = a->r.totalUp = a->r.restLen = a->r.restUp = a->r.restInQ = a->r.restInP = 0;
+  a->r.restBound = 0;
 }
 
 static inline bg_size bg_vec_list_u__size(const bg_adj *a) { return a->n; }
 
-/* mutations of the scratch cell update the owner's rest sums by the same delta */
+/* ghost frontier (DESIGN §4.3): below == sum of len over rows with index < F
+   of vector a.  Started/advanced by ghost statements of the spec files; kept
+   exact by every row mutation; at F == a->n it equals the stored total (a
+   definitional fact of the abstraction, assumed there). */
+typedef struct {
+  const struct bg_adj *a;
+  bg_size F, below, belowUp;
+} bg_ghost_frontier_t;
+extern bg_ghost_frontier_t bg_ghost_frontier;
+
+/* every mutation of a row updates the stored sums of its vector by the same delta */
+static inline struct bg_adj *bg__owner(bg_list *l) {
+  if (l == &bg_scratch_row.row)
+    return bg_scratch_row.owner;
+  if (bg_cur_adj != 0 && (l == bg_cur_adj->rowP || l == bg_cur_adj->rowQ))
+    return bg_cur_adj;
+  return 0; /* free-standing list */
+}
 static inline void bg__rest_sub(bg_list *l, bg_size k, bg_size kup, bg_size kq, bg_size kp) {
-  if (l == &bg_scratch_row.row) {
-    struct bg_adj *o = bg_scratch_row.owner;
-    o->restLen -= k;
-    o->restUp -= kup;
-    o->restInQ -= kq;
-    o->restInP -= kp;
+  struct bg_adj *o = bg__owner(l);
+  if (o != 0) {
+    o->r.total -= k;
+    o->r.totalUp -= kup;
+    if (l == &bg_scratch_row.row) {
+      o->r.restLen -= k;
+      o->r.restUp -= kup;
+      o->r.restInQ -= kq;
+      o->r.restInP -= kp;
+    }
+    if (bg_ghost_frontier.a == o && l->idx < bg_ghost_frontier.F) {
+      bg_ghost_frontier.below -= k;
+      bg_ghost_frontier.belowUp -= kup;
+    }
+    BG_ASSUME(BG_REST_AX(*o));
+    BG_ASSUME(l->c.len <= o->r.total && l->c.up <= o->r.totalUp);
+    BG_ASSUME(BG_ADJ_ROWS_AX(*o));
   }
   BG_ASSUME(BG_CNT_AX(l->c, l->idx));
 }
 static inline void bg__rest_add(bg_list *l, bg_bool isup, bg_bool isq, bg_bool isp) {
-  if (l == &bg_scratch_row.row) {
-    struct bg_adj *o = bg_scratch_row.owner;
-    o->restLen += 1;
-    o->restUp += isup;
-    o->restInQ += isq;
-    o->restInP += isp;
-    if (l->bound > o->bound)
-      o->bound = l->bound;
+  struct bg_adj *o = bg__owner(l);
+  if (o != 0) {
+    BG_ASSUME(o->r.total + 1 < BG_CAP); /* B-LEN */
+    o->r.total += 1;
+    o->r.totalUp += isup;
+    if (l == &bg_scratch_row.row) {
+      o->r.restLen += 1;
+      o->r.restUp += isup;
+      o->r.restInQ += isq;
+      o->r.restInP += isp;
+      if (l->bound > o->r.restBound)
+        o->r.restBound = l->bound;
+    }
+    if (bg_ghost_frontier.a == o && l->idx < bg_ghost_frontier.F) {
+      bg_ghost_frontier.below += 1;
+      bg_ghost_frontier.belowUp += isup;
+    }
+    BG_ASSUME(BG_REST_AX(*o));
+    BG_ASSUME(l->c.len <= o->r.total && l->c.up <= o->r.totalUp);
+    BG_ASSUME(BG_ADJ_ROWS_AX(*o));
   }
   BG_ASSUME(BG_CNT_AX(l->c, l->idx));
 }
@@ -410,6 +470,7 @@ static inline void bg__rest_add(bg_list *l, bg_bool isup, bg_bool isq, bg_bool i
 /* ghost: forget the cached row (emitted by the extractor around every call
    into contracted BaseGraph code and at every exit of a contracted function) */
 static inline void bg_ghost_scratch_reset(void) {
+  bg_cur_adj = 0;
   bg_scratch_row.valid = 0;
   bg_scratch_row.owner = 0;
   bg_scratch_row.from = 0;
@@ -421,14 +482,51 @@ static inline void bg__scratch_load(const bg_adj *a, bg_size i) {
   bg_scratch_row.row.c.nQ = nondet_bg_size();
   bg_scratch_row.row.c.up = nondet_bg_size();
   bg_scratch_row.row.idx = i;
-  bg_scratch_row.row.bound = a->bound;
+  bg_scratch_row.row.bound = a->r.restBound;
   BG_ASSUME(BG_LIST_WF(bg_scratch_row.row));
-  BG_ASSUME(bg_scratch_row.row.c.len <= a->restLen);
-  BG_ASSUME(bg_scratch_row.row.c.up <= a->restUp);
-  BG_ASSUME((G_P == G_Q ? bg_scratch_row.row.c.nP : bg_scratch_row.row.c.nQ) <= a->restInQ);
-  BG_ASSUME(bg_scratch_row.row.c.nP <= a->restInP);
+  BG_ASSUME(bg_scratch_row.row.c.len <= a->r.restLen);
+  BG_ASSUME(bg_scratch_row.row.c.up <= a->r.restUp);
+  BG_ASSUME((G_P == G_Q ? bg_scratch_row.row.c.nP : bg_scratch_row.row.c.nQ) <= a->r.restInQ);
+  BG_ASSUME(bg_scratch_row.row.c.nP <= a->r.restInP);
   bg_scratch_row.valid = 1;
   bg_scratch_row.from = a;
+}
+
+static inline void bg_ghost_frontier_start(const bg_adj *a) {
+  bg_ghost_frontier.a = a;
+  bg_ghost_frontier.F = 0;
+  bg_ghost_frontier.below = 0;
+  bg_ghost_frontier.belowUp = 0;
+  if (a->n == 0)
+    BG_ASSUME(a->r.total == 0 && a->r.totalUp == 0); /* no rows, no entries */
+}
+/* move the frontier over row i (== F).  The row's current length is read from
+   the observed row or from the cached cell; an uncached unobserved row
+   contributes an unknown amount. */
+static inline void bg_ghost_frontier_advance(const bg_adj *a, bg_size i) {
+  __CPROVER_assert(bg_ghost_frontier.a == a && bg_ghost_frontier.F == i && i < a->n,
+                   "ABSTRACTION frontier advanced out of order");
+  bg_size len, up;
+  if (i == G_P) {
+    len = a->rowP->c.len;
+    up = a->rowP->c.up;
+  } else if (i == G_Q) {
+    len = a->rowQ->c.len;
+    up = a->rowQ->c.up;
+  } else if (bg_scratch_row.valid && bg_scratch_row.from == a && bg_scratch_row.row.idx == i) {
+    len = bg_scratch_row.row.c.len;
+    up = bg_scratch_row.row.c.up;
+  } else {
+    len = nondet_bg_size();
+    up = nondet_bg_size();
+    BG_ASSUME(up <= len && len <= a->r.restLen && up <= a->r.restUp);
+  }
+  bg_ghost_frontier.below += len;
+  bg_ghost_frontier.belowUp += up;
+  bg_ghost_frontier.F = i + 1;
+  BG_ASSUME(bg_ghost_frontier.below <= a->r.total && bg_ghost_frontier.belowUp <= a->r.totalUp);
+  if (bg_ghost_frontier.F == a->n)
+    BG_ASSUME(bg_ghost_frontier.below == a->r.total && bg_ghost_frontier.belowUp == a->r.totalUp);
 }
 
 /* operator[] const */
@@ -448,6 +546,7 @@ static inline const bg_list *bg_vec_list_u__index_c(const bg_adj *a, bg_size i) 
 /* operator[] non-const */
 static inline bg_list *bg_vec_list_u__index(bg_adj *a, bg_size i) {
   BG_PRE(i < a->n, "vector<list>::operator[] index out of range");
+  bg_cur_adj = a;
   if (i == G_P)
     return a->rowP;
   if (i == G_Q)
@@ -469,9 +568,11 @@ static inline void bg_vec_list_u__resize(bg_adj *a, bg_size k, const bg_list *v)
 /* --------------------------- std::unordered_map<Edge, L, hashEdge> (labels) */
 #define BG_DEFINE_MAP(TAG, T, EQ, ZERO)                                       \
   typedef struct bg_map_##TAG {                                               \
-    bg_bool hasPQ, hasQP; /* keys (G_P,G_Q), (G_Q,G_P); QP unused if P==Q */  \
+    struct {                                                                  \
+      bg_bool hasPQ, hasQP; /* keys (G_P,G_Q), (G_Q,G_P); QP unused if P==Q */\
+      bg_size restCount;    /* entries under other keys                   */  \
+    } s;                                                                      \
     T *valPQ, *valQP;     /* separate objects, see bg_adj                  */ \
-    bg_size restCount;    /* entries under other keys                   */    \
   } bg_map_##TAG;                                                             \
   typedef struct {                                                            \
     bg_bool valid, has;                                                       \
@@ -482,23 +583,23 @@ static inline void bg_vec_list_u__resize(bg_adj *a, bg_size k, const bg_list *v)
   extern bg_scratch_val_##TAG##_t bg_scratch_val_##TAG;                       \
   extern T bg_dummy_##TAG;                                                    \
   static inline void bg_map_##TAG##__ctor(bg_map_##TAG *m) {                  \
-    m->hasPQ = m->hasQP = 0;                                                  \
+    m->s.hasPQ = m->s.hasQP = 0;                                                  \
     m->valPQ = (T *)malloc(sizeof(T));                                        \
     m->valQP = (T *)malloc(sizeof(T));                                        \
     BG_ASSUME(m->valPQ != 0 && m->valQP != 0);                                \
     *m->valPQ = (T)ZERO;                                                      \
     *m->valQP = (T)ZERO;                                                      \
-    m->restCount = 0;                                                         \
+    m->s.restCount = 0;                                                         \
   }                                                                           \
   static inline bg_size bg_map_##TAG##__size(const bg_map_##TAG *m) {         \
-    return (bg_size)m->hasPQ + (bg_size)m->hasQP + m->restCount;              \
+    return (bg_size)m->s.hasPQ + (bg_size)m->s.hasQP + m->s.restCount;              \
   }                                                                           \
   static inline void bg__map_##TAG##_load(const bg_map_##TAG *m, bg_edge k) { \
     if (!(bg_scratch_val_##TAG.valid && bg_scratch_val_##TAG.from == m &&     \
           bg_scratch_val_##TAG.key.first == k.first &&                        \
           bg_scratch_val_##TAG.key.second == k.second)) {                     \
       bg_scratch_val_##TAG.has = nondet_bg_bool();                            \
-      BG_ASSUME(!bg_scratch_val_##TAG.has || m->restCount > 0);               \
+      BG_ASSUME(!bg_scratch_val_##TAG.has || m->s.restCount > 0);               \
       bg_scratch_val_##TAG.key = k;                                           \
       bg_scratch_val_##TAG.from = m;                                          \
       bg_scratch_val_##TAG.valid = 1;                                         \
@@ -507,19 +608,19 @@ static inline void bg_vec_list_u__resize(bg_adj *a, bg_size k, const bg_list *v)
   static inline bg_size bg_map_##TAG##__count(const bg_map_##TAG *m,          \
                                               const bg_edge *k) {             \
     if (k->first == G_P && k->second == G_Q)                                  \
-      return m->hasPQ;                                                        \
+      return m->s.hasPQ;                                                        \
     if (k->first == G_Q && k->second == G_P)                                  \
-      return m->hasQP;                                                        \
+      return m->s.hasQP;                                                        \
     bg__map_##TAG##_load(m, *k);                                              \
     return bg_scratch_val_##TAG.has;                                          \
   }                                                                           \
   static inline const T *bg_map_##TAG##__at_c(const bg_map_##TAG *m,          \
                                               const bg_edge *k) {             \
     if (k->first == G_P && k->second == G_Q) {                                \
-      if (m->hasPQ)                                                           \
+      if (m->s.hasPQ)                                                           \
         return m->valPQ;                                                      \
     } else if (k->first == G_Q && k->second == G_P) {                         \
-      if (m->hasQP)                                                           \
+      if (m->s.hasQP)                                                           \
         return m->valQP;                                                      \
     } else {                                                                  \
       bg__map_##TAG##_load(m, *k);                                            \
@@ -531,23 +632,23 @@ static inline void bg_vec_list_u__resize(bg_adj *a, bg_size k, const bg_list *v)
   }                                                                           \
   static inline T *bg_map_##TAG##__index(bg_map_##TAG *m, const bg_edge *k) { \
     if (k->first == G_P && k->second == G_Q) {                                \
-      if (!m->hasPQ) {                                                        \
-        m->hasPQ = 1;                                                         \
+      if (!m->s.hasPQ) {                                                        \
+        m->s.hasPQ = 1;                                                         \
         *m->valPQ = (T)ZERO;                                                  \
       }                                                                       \
       return m->valPQ;                                                        \
     }                                                                         \
     if (k->first == G_Q && k->second == G_P) {                                \
-      if (!m->hasQP) {                                                        \
-        m->hasQP = 1;                                                         \
+      if (!m->s.hasQP) {                                                        \
+        m->s.hasQP = 1;                                                         \
         *m->valQP = (T)ZERO;                                                  \
       }                                                                       \
       return m->valQP;                                                        \
     }                                                                         \
     bg__map_##TAG##_load(m, *k);                                              \
     if (!bg_scratch_val_##TAG.has) {                                          \
-      BG_PRE(m->restCount + 1 < BG_CAP, "map size cap");                      \
-      m->restCount++;                                                         \
+      BG_ASSUME(m->s.restCount + 1 < BG_CAP); /* B-LEN */                       \
+      m->s.restCount++;                                                         \
       bg_scratch_val_##TAG.has = 1;                                           \
       bg_scratch_val_##TAG.val = (T)ZERO;                                     \
     }                                                                         \
@@ -557,39 +658,39 @@ static inline void bg_vec_list_u__resize(bg_adj *a, bg_size k, const bg_list *v)
                                               const bg_edge *k) {             \
     bg_size r;                                                                \
     if (k->first == G_P && k->second == G_Q) {                                \
-      r = m->hasPQ;                                                           \
-      m->hasPQ = 0;                                                           \
+      r = m->s.hasPQ;                                                           \
+      m->s.hasPQ = 0;                                                           \
       return r;                                                               \
     }                                                                         \
     if (k->first == G_Q && k->second == G_P) {                                \
-      r = m->hasQP;                                                           \
-      m->hasQP = 0;                                                           \
+      r = m->s.hasQP;                                                           \
+      m->s.hasQP = 0;                                                           \
       return r;                                                               \
     }                                                                         \
     bg__map_##TAG##_load(m, *k);                                              \
     r = bg_scratch_val_##TAG.has;                                             \
     if (r) {                                                                  \
-      m->restCount--;                                                         \
+      m->s.restCount--;                                                         \
       bg_scratch_val_##TAG.has = 0;                                           \
     }                                                                         \
     return r;                                                                 \
   }                                                                           \
   static inline void bg_map_##TAG##__clear(bg_map_##TAG *m) {                 \
-    m->hasPQ = m->hasQP = 0;                                                  \
-    m->restCount = 0;                                                         \
+    m->s.hasPQ = m->s.hasQP = 0;                                                  \
+    m->s.restCount = 0;                                                         \
     bg_scratch_val_##TAG.valid = 0;                                           \
   }                                                                           \
   /* operator== : true => observed entries agree and sizes agree;           \
      false => nothing is promised here (witness is a ghost, see contracts) */ \
   static inline bg_bool bg_map_##TAG##__eq(const bg_map_##TAG *a,             \
                                            const bg_map_##TAG *b) {           \
-    bg_bool obs = a->hasPQ == b->hasPQ && a->hasQP == b->hasQP &&             \
-                  (!a->hasPQ || EQ(*a->valPQ, *b->valPQ)) &&                  \
-                  (!a->hasQP || EQ(*a->valQP, *b->valQP)) &&                  \
-                  a->restCount == b->restCount;                               \
+    bg_bool obs = a->s.hasPQ == b->s.hasPQ && a->s.hasQP == b->s.hasQP &&             \
+                  (!a->s.hasPQ || EQ(*a->valPQ, *b->valPQ)) &&                  \
+                  (!a->s.hasQP || EQ(*a->valQP, *b->valQP)) &&                  \
+                  a->s.restCount == b->s.restCount;                               \
     if (!obs)                                                                 \
       return 0;                                                               \
-    if (a->restCount == 0)                                                    \
+    if (a->s.restCount == 0)                                                    \
       return 1;                                                               \
     return nondet_bg_bool();                                                  \
   }
@@ -683,7 +784,7 @@ static inline bg_vec_sz *bg_mat_sz__index(bg_mat_sz *a, bg_size i) {
   return &bg_scratch_vec_sz;
 }
 
-#define BG_SCRATCH_CLEAN (!bg_scratch_row.valid && bg_scratch_row.owner == 0)
+#define BG_SCRATCH_CLEAN (!bg_scratch_row.valid && bg_scratch_row.owner == 0 && bg_cur_adj == 0)
 #define BG_MAP_FRESH(m)                                                       \
   (__CPROVER_is_fresh((m).valPQ, sizeof(*(m).valPQ)) &&                       \
    __CPROVER_is_fresh((m).valQP, sizeof(*(m).valQP)))
